@@ -64,7 +64,7 @@ fn ee_cert_der() -> &'static [u8] {
     static EE: OnceLock<Vec<u8>> = OnceLock::new();
     EE.get_or_init(|| {
         let (nb, na) = wide_window();
-        let spec = EeSpec { key: 1, issuer: 0, v4: Res::Inherit, v6: Res::Inherit, asn: AsRes::Inherit, trim: false, nb, na };
+        let spec = EeSpec { key: 1, issuer: 0, v4: Res::Inherit, v6: Res::Inherit, asn: AsRes::Inherit, trim: false, nb, na, dress: Default::default() };
         build_ee(&spec, EeFault::None).to_captured().into_bytes().to_vec()
     })
 }
